@@ -56,23 +56,45 @@ PROPS = {
 PROPS["C17"] = {
     "title": "Contour tracing returns exactly the boundary of the sampled shape",
     "gen_modules": ["Contour"],
-    "props_modules": ["C17", "C17Scan", "C17Trace", "C17All"],
+    "props_modules": ["C17", "C17Scan", "C17Trace", "C17All", "C17Round"],
     "corr_n": (20000, 400000),
     "search_n": (20000, 400000),
-    "technique": "Lean 4 theorems for every bitmap (scan_spec, trace_loops, trace_contours_spec) over translated kernels and literal hand models + exhaustive exact correspondence of the models",
-    "level_text": "The marching-squares table, corner-bit packing, edge numbering and its inverse are regenerated from the Rust source on every run and proved correct for the whole "
-                  "(finite) cell domain and all positions: a cell connects exactly the sides whose corners differ, each once; neighbouring cells share edge ids; ids are injective; "
-                  "to_contour_coords inverts at_coordinates; merged runs are strictly separated. For EVERY bitmap (any size): scan_spec proves the iterator model yields exactly the mixed 2x2 cells "
-                  "with correct corner bits in scanline order (incl. sufficiency of the iteration bound), trace_loops / trace_contours_spec prove the tracer model never hits its panic sites and returns "
-                  "closed loops of cell-adjacent edges using every inside/outside edge exactly once. The scan iterator and the loop tracer are literal hand models, compared verbatim "
-                  "(cells) and up to rotation/direction/order (loops) with the implementation on every bitmap up to 4x3/3x4 (quick) and 4x4, 5x4, 4x5 (thorough) plus random bitmaps to 64x64; "
-                  "the driver also checks the implementation's cells against the mixed-cell specification and its loops against the set of boundary edges.",
-    "level_note": "The theorems are about the hand models of the iterator and tracer (loops with mutation and a HashMap are outside the translator's subset); the models are tied to the code "
-                  "by exhaustive correspondence. HashMap iteration order is abstracted (the theorem holds for any key order) and canonicalised away in the comparison. " + COMMON_NOTE,
+    "technique": "Lean 4 theorems for every bitmap and for every contour given by fractional intercepts (scan_spec, trace_loops, trace_contours_spec, roundFrac_eq_rle, frac_scan_spec, "
+                 "frac_trace_contours_spec) over translated kernels and literal hand models + exhaustive exact correspondence of the models through four contour types",
+    "level_text": "The marching-squares table, corner-bit packing, edge numbering and its inverse, and the sample index of BoolSampledContour / U8SampledContour::point_is_inside are regenerated from the "
+                  "Rust source on every run and proved correct for the whole (finite) cell domain and all positions: a cell connects exactly the sides whose corners differ, each once; neighbouring "
+                  "cells share edge ids; ids are injective; to_contour_coords inverts at_coordinates; the sample index is the row-major index x + y*width, in bounds and injective for positions inside "
+                  "the contour (u8_index_row_major, bitmap_rows_spec - so non-square u8/bool bitmaps are covered by a theorem, not only by cases). "
+                  "Rounding stage (rounded_intercepts_on_line + merge_overlapping_intercepts, literal model roundFrac over exact rationals): for EVERY list of real ranges that respects the trait's contract "
+                  "(s0 <= e0 <= s1 <= ..., any length): an integer sample lies in [ceil s, ceil e) iff it lies in [s, e), also for negative bounds (ceil_is_sampling); the rounded ranges stay ascending "
+                  "with e_i <= s_i+1 (ceilRuns_ascending); merging keeps the covered sample set - even for overlapping ranges, as long as none is nested (mergeRuns_preserves_samples, roundFrac_samples); "
+                  "the result is strictly separated, non-empty and inside the width (roundFrac_good) and therefore EQUALS the run-length encoding of the sampled row (roundFrac_eq_rle). Without the "
+                  "contract merging LOSES samples (theorems mergeRuns_nested_loses_coverage / roundFrac_nested_loses_coverage: [0,10) and [2,3) become [0,3)). "
+                  "Scan and trace: for EVERY bitmap (any size) scan_spec proves the iterator model yields exactly the mixed 2x2 cells with correct corner bits in scanline order (incl. sufficiency of the "
+                  "iteration bound; scan_runs_spec: on any well-formed run lists), trace_loops / trace_contours_spec prove the tracer model never hits its panic sites and returns closed loops of cell-adjacent "
+                  "edges using every inside/outside edge exactly once; frac_scan_spec / frac_trace_contours_spec carry both over to ANY contour given by contract-respecting intercepts that end inside the "
+                  "width (cells and loops of the SAMPLED bitmap). The rounding stage, the scan iterator and the loop tracer are literal hand models, compared verbatim (rounded ranges, cells) and up to "
+                  "rotation/direction/order (loops) with the implementation on every bitmap up to 4x3/3x4/6x1 (quick) and 4x4, 5x3, 5x4, 4x5 (thorough) plus random bitmaps to 64x64, each bitmap as "
+                  "BoolSampledContour, U8SampledContour (0 / mixed non-zero bytes), a harness-defined contour of fractional intercepts in two disguises (every sample its own half-offset range; random splits "
+                  "inside one pixel gap so that rounded pieces touch, pieces that round to nothing, negative starts) and the library's ScaledContour (scales 1/4..2, offsets 0..1/2); "
+                  "rounded_intercepts_on_line is also compared on its own, incl. inputs outside the contract (overlapping, nested, unsorted, inverted, negative). The driver checks the implementation's cells "
+                  "against the mixed-cell specification and its loops against the set of boundary edges; the search requires all contour types to give identical cells and loops for the same bitmap.",
+    "level_note": "The theorems are about the hand models of the rounding stage, the iterator and the tracer (loops with in-place mutation, SmallVec::remove and a HashMap are outside the translator's subset); the "
+                  "models are tied to the code by exhaustive correspondence. HashMap iteration order is abstracted (the theorem holds for any key order) and canonicalised away in the comparison. "
+                  "Intercepts are exact rationals: every finite binary64 number is one, and ceil / `as usize` are exact below 2^64 (the saturation at usize::MAX, NaN and infinite intercepts are not modelled). "
+                  "ScaledContour's own coordinate mapping (multiplication by the scale factor) is not modelled: its intercepts are taken as the input. For the largest exhaustive sizes (more than 16 samples) "
+                  "every bitmap runs as a bool contour and every 32nd (correspondence) / 16th (search) in the other kinds; random bitmaps run as a bool contour plus one other kind in turn (thorough: on every second bitmap) in the correspondence and in all kinds in the search. " + COMMON_NOTE,
     "rule": "exhaustive enumeration of all bitmaps of the listed sizes (with and without an empty border arise as sub-cases), then random bitmaps 1..64 x 1..64 of kinds "
-            "full/empty/checkerboard/single pixel/noise/ring/blocks/noise with border. Non-trivial: neither empty nor full; distinct by size and bits.",
-    "trusted_base": ["hand-written model Model/Contour.lean of the scan iterator and tracer (tied by exhaustive correspondence)"],
-    "assumptions": ["the bitmap vector has width*height entries (the Rust code indexes without bounds checks otherwise)"],
+            "full/empty/checkerboard/single pixel/noise/ring/blocks/long runs/noise with border; each through the contour kinds bool, u8, frac_max_split, frac, scaled (transcript operations bitmap, bitmap_u8, "
+            "frac, scaled; evidence counters kind.*, and frac.* / scaled.* / round.* for rows that are fractional, touch after rounding, contain a piece that rounds to nothing, start below 0, have >= 4 ranges, "
+            "have >= 4 ranges with a touching pair followed by >= 2 more); operation round: every row of width <= 8 in three disguises, every row of the random fractional contours, and random lists outside the "
+            "contract. Non-trivial: neither empty nor full (round: at least two ranges); distinct by kind, size, samples and intercepts.",
+    "trusted_base": ["hand-written model Model/Contour.lean of the rounding stage (roundFrac, mergeRuns), the scan iterator and the tracer (tied by exhaustive correspondence)",
+                     "the harness-defined FracContour (an implementation of the public trait SampledContour that returns the stored ranges of line floor(y))"],
+    "assumptions": ["the bitmap vector has width*height entries (the Rust code indexes without bounds checks otherwise)",
+                    "intercepts_on_line respects its documented contract (ascending, not overlapping: s0 <= e0 <= s1 <= ...) - proved necessary: nested ranges lose samples",
+                    "no intercept ends beyond the contour's width (forced by the scan theorem: cells are only specified for x <= width; not stated in the trait's documentation)",
+                    "intercepts are finite and below 2^64"],
 }
 
 PROPS["C04"] = {
